@@ -794,11 +794,20 @@ func (f *framing) ruleJunkDelimiting(rule string) {
 		}
 		bo, ok := ifi.Cond.(*ssa.BinOp)
 		good := false
+		// a flag that only re-splits paths already separated by the two recognised conditions
+		if src, xc, _ := phiBoolSourceX(ifi.Cond, true, ifi.Block()); src != nil {
+			good = xc == nil
+			if xb, isB := xc.(*ssa.BinOp); isB && xb.X == r.b && (xb.Op == token.EQL || xb.Op == token.NEQ) {
+				if k, ok := constInt(xb.Y); ok && k == start {
+					good = true
+				}
+			}
+		}
 		if ok {
 			if (bo.X == r.err && isNilConst(bo.Y)) || (bo.Y == r.err && isNilConst(bo.X)) {
 				good = true
 			}
-			if bo.X == r.b && bo.Op == token.EQL {
+			if bo.X == r.b && (bo.Op == token.EQL || bo.Op == token.NEQ) {
 				if k, ok := constInt(bo.Y); ok && k == start {
 					good = true
 				}
@@ -957,10 +966,29 @@ func (f *framing) rulePushbackFIFO(rule string) {
 						// guarded by len(buffer) > 0 and followed by buffer = buffer[1:]
 						g := false
 						for _, ft := range dominatingFacts(r.Block()) {
-							if bo, ok := ft.Cond.(*ssa.BinOp); ok && ft.Val && bo.Op == token.GTR {
-								if k, isC := constInt(bo.Y); isC && k == 0 {
-									g = true
-								}
+							bo, ok := ft.Cond.(*ssa.BinOp)
+							if !ok {
+								continue
+							}
+							lc, ok := bo.X.(*ssa.Call)
+							if !ok {
+								continue
+							}
+							if bi, ok := lc.Call.Value.(*ssa.Builtin); !ok || bi.Name() != "len" {
+								continue
+							}
+							if fv, _ := loadedField(lc.Call.Args[0]); fv != buf {
+								continue
+							}
+							k, isC := constInt(bo.Y)
+							if !isC {
+								continue
+							}
+							// the fact means len(buffer) > 0
+							switch {
+							case bo.Op == token.GTR && k == 0 && ft.Val, bo.Op == token.GEQ && k == 1 && ft.Val, bo.Op == token.NEQ && k == 0 && ft.Val,
+								bo.Op == token.EQL && k == 0 && !ft.Val, bo.Op == token.LEQ && k == 0 && !ft.Val, bo.Op == token.LSS && k == 1 && !ft.Val:
+								g = true
 							}
 						}
 						st := false
@@ -1046,13 +1074,18 @@ func (f *framing) ruleConstructors(rule string) {
 		// struct-valued constructions: Alloc of Message outside constructors with a MessageType store are covered above
 	}
 	_ = M
-	// typed constructor call sites
+	// typed constructor call sites (a call whose type argument is the non-RTCM constant builds an untyped message)
 	for _, site := range P.Callers(pl.newMsg) {
 		caller := site.Parent()
+		if k, isC := constInt(site.Common().Args[0]); isC && k == -1 {
+			c.OK(rule, "NewMessage-call("+P.FnKey(caller)+")", site.Pos(), "constructs a non-RTCM message (type argument is the constant -1)")
+			continue
+		}
 		c.Check(caller == pl.getMsg, rule, "NewMessage-call("+P.FnKey(caller)+")", site.Pos(), "typed messages are constructed only by the single-frame decoder",
 			"a typed message is constructed outside the single-frame decoder (bypassing the frame checks)")
 	}
-	// NewNonRTCM stores the NonRTCM constant; NewMessage stores its parameter
+	msgFields := ctorStoresParam(pl.newMsg, 0, pl.msgType) && ctorStoresParam(pl.newMsg, 2, pl.rawData)
+	// NewNonRTCM stores the NonRTCM constant and its raw-data parameter, directly or by delegating to NewMessage
 	nonOK := false
 	eachInstr(pl.newNon, func(ins ssa.Instruction) {
 		if st, ok := ins.(*ssa.Store); ok {
@@ -1063,9 +1096,29 @@ func (f *framing) ruleConstructors(rule string) {
 			}
 		}
 	})
+	rawOK := ctorStoresParam(pl.newNon, 0, pl.rawData)
+	if rets := returnsOf(pl.newNon); len(rets) > 0 && msgFields {
+		deleg := true
+		for _, r := range rets {
+			call, ok := r.Results[0].(*ssa.Call)
+			if !ok || call.Call.StaticCallee() != pl.newMsg || len(call.Call.Args) < 3 {
+				deleg = false
+				continue
+			}
+			if k, isC := constInt(call.Call.Args[0]); !isC || k != -1 {
+				deleg = false
+			}
+			if call.Call.Args[2] != ssa.Value(pl.newNon.Params[0]) {
+				deleg = false
+			}
+		}
+		if deleg {
+			nonOK, rawOK = true, true
+		}
+	}
 	c.Check(nonOK, rule, "NewNonRTCM:type", pl.newNon.Pos(), "NewNonRTCM sets the type to NonRTCMMessage (-1)", "NewNonRTCM does not set the non-RTCM type")
-	c.Check(ctorStoresParam(pl.newMsg, 0, pl.msgType) && ctorStoresParam(pl.newMsg, 2, pl.rawData), rule, "NewMessage:fields", pl.newMsg.Pos(), "NewMessage stores its type and raw-data parameters", "NewMessage does not store its type / raw data parameters into the like-named fields")
-	c.Check(ctorStoresParam(pl.newNon, 0, pl.rawData), rule, "NewNonRTCM:rawdata", pl.newNon.Pos(), "NewNonRTCM stores its raw-data parameter", "NewNonRTCM does not store its raw data")
+	c.Check(msgFields, rule, "NewMessage:fields", pl.newMsg.Pos(), "NewMessage stores its type and raw-data parameters", "NewMessage does not store its type / raw data parameters into the like-named fields")
+	c.Check(rawOK, rule, "NewNonRTCM:rawdata", pl.newNon.Pos(), "NewNonRTCM stores its raw-data parameter", "NewNonRTCM does not store its raw data")
 }
 
 // helperGates: the helper's nil-error return is dominated by the four leader checks.
@@ -1584,21 +1637,25 @@ func (f *framing) ruleRejectionSites(rule string) {
 			}
 		}
 		if kind == "" {
-			// mismatch exit: reached from the byte comparisons only
+			// mismatch exit: every edge into it is the "bytes differ" edge of a CRC byte comparison
+			isByteCall := func(v ssa.Value) bool {
+				call, ok := v.(*ssa.Call)
+				return ok && call.Call.StaticCallee() != nil && strings.HasSuffix(calleeFullName(call.Call.StaticCallee()), "Byte")
+			}
 			okPreds := true
 			for _, p := range r.Block().Preds {
 				ifi, ok := lastInstr(p).(*ssa.If)
-				if !ok {
+				if !ok || len(p.Succs) != 2 || p.Succs[0] == p.Succs[1] {
 					okPreds = false
 					continue
 				}
 				bo, ok := ifi.Cond.(*ssa.BinOp)
-				if !ok || bo.Op != token.NEQ || p.Succs[0] != r.Block() {
+				taken := p.Succs[0] == r.Block()
+				if !ok || !((bo.Op == token.NEQ && taken) || (bo.Op == token.EQL && !taken)) {
 					okPreds = false
 					continue
 				}
-				call, ok := bo.X.(*ssa.Call)
-				if !ok || call.Call.StaticCallee() == nil || !strings.HasSuffix(calleeFullName(call.Call.StaticCallee()), "Byte") {
+				if !isByteCall(bo.X) && !isByteCall(bo.Y) {
 					okPreds = false
 				}
 			}
